@@ -2,6 +2,7 @@ package main
 
 import (
 	"fmt"
+	"os"
 	"rvcheck/rv"
 	"golang.org/x/tools/go/ssa"
 )
@@ -9,12 +10,8 @@ import (
 func main() {
 	p, err := rv.Load("/repo", "", "")
 	if err != nil { panic(err) }
-	fn := p.Fn("rueidis.(*singleClient).Do")
-	for _, b := range fn.Blocks {
-		for _, in := range b.Instrs {
-			if c, ok := in.(*ssa.Call); ok {
-				fmt.Println(rv.CalleeName(c), rv.Desc(c))
-			}
-		}
-	}
+	fn := p.Fn(os.Args[1])
+	fn.WriteTo(os.Stdout)
+	_ = fmt.Sprint
+	_ = ssa.Value(nil)
 }
